@@ -51,8 +51,68 @@ def eval_front(fp, res):
     if [(l[1], l[2], l[3]) for l in lv] != [(('t', i), i, i + 1) for i in range(n)]:
         out.append(('not-lossless', f'leaf walk {[(l[1], l[2], l[3]) for l in lv]}'))
     for sev, msg, sp in res.diags:
-        if sp is None or not (0 <= sp[0] <= sp[1] <= n): out.append(('diag-span', f'diagnostic span {sp} outside the text 0..{n}'))
+        if sp is None: out.append(('diag-span', f'diagnostic {msg!r} without a span'))
+        elif isinstance(sp[0], int) and isinstance(sp[1], int) and not (0 <= sp[0] <= sp[1] <= n): out.append(('diag-span', f'diagnostic span {sp} outside the text 0..{n}'))
     return out
+
+# kinds whose lexeme may contain multi-byte characters (lexer.rs: comment and string bodies, invalid characters); every other
+# kind is matched by an ASCII-only pattern, so any offset inside such a token is a character boundary
+MB_KINDS = ('Error', 'BlockComment', 'Str', 'LineComment', 'DocComment')
+
+def span_oracle(fp):
+    """token boundaries are solver variables b_0=0 < b_1 < .. < b_n; a diagnostic end point that is not literally one of them is
+    handed to the solver:  PC /\ (x < 0 \/ x > b_n \/ lo > hi \/ exists i. b_i < x < b_{i+1} /\ kind_i may hold multi-byte text)"""
+    mb = [fp.tokens.index(k) for k in MB_KINDS]
+    def on_path(r, res, solver, tvars):
+        bv = res.bvars; n = res.n
+        def term(x): return bv[x] if isinstance(x, int) else (run.deser(x[1]) if not isinstance(x[1], int) else z3.IntVal(x[1]))
+        for sev, msg, sp in res.diags:
+            if sp is None or (isinstance(sp[0], int) and isinstance(sp[1], int) and 0 <= sp[0] <= sp[1] <= n): continue
+            lo, hi = term(sp[0]), term(sp[1])
+            found = None
+            for pref in mb + [None]:
+                inside = []
+                for x in (lo, hi):
+                    for i in range(n):
+                        kind_ok = (tvars[i] == pref) if pref is not None else z3.Or(*[tvars[i] == k for k in mb])
+                        inside.append(z3.And(bv[i] < x, x < bv[i + 1], kind_ok))
+                bad = z3.Or(lo < 0, hi > bv[n], lo > hi, *inside) if pref is None else z3.Or(*inside)
+                ok, model = solver.check([bad])
+                if ok: found = model; break
+            if found is None: continue
+            ev = lambda e: found.eval(e, model_completion=True).as_long()
+            res.span_viol.append(dict(witness=[ev(t) for t in tvars], bounds=[ev(b) for b in bv], lo=ev(lo), hi=ev(hi), msg=msg,
+                                      term=f'{z3.simplify(lo)}..{z3.simplify(hi)}'))
+    return on_path
+
+def mb_texts(kinds, bounds, lo, hi):
+    """texts for a span counterexample: canonical lexemes, with the token(s) the end points fall into replaced by lexemes of
+    multi-byte characters (several variants; the solver's token LENGTHS cannot be honoured for fixed-spelling kinds)"""
+    n = len(kinds); hit = [i for i in range(n) if any(bounds[i] < x < bounds[i + 1] for x in (lo, hi))]
+    var = {'Error': ['\u00e9', '\u20ac', '\U0001F600'], 'Str': ["'\u00e9'", "'\u20ac\u20ac'"], 'LineComment': ['//\u00e9\n', '//\u00e9\u00e9\n'],
+           'DocComment': ['///\u00e9\n', '///\u20ac\u00e9\n'], 'BlockComment': ['/*\u00e9*/', '/*\u20ac\u20ac*/']}
+    out = []
+    for v in range(3):
+        t = []
+        for i, k in enumerate(kinds):
+            if i in hit and k in var:
+                alts = list(var[k])
+                if k == 'BlockComment' and i == n - 1: alts = ['/*\u00e9', '/*\u20ac'] + alts
+                t.append(alts[v % len(alts)])
+            else: t.append(LEX[k])
+        out.append(''.join(t))
+    return out
+
+LEX = {"LineComment": "//c\n", "BlockComment": "/*c*/", "DocComment": "///d\n", "Whitespace": " ", "Token": "token", "Start": "start", "Right": "right",
+       "Skip": "skip", "Part": "part", "Colon": ":", "Semi": ";", "Equal": "=", "LPar": "(", "RPar": ")", "LBrak": "[", "RBrak": "]", "Or": "|", "Star": "*",
+       "Plus": "+", "Hat": "^", "Tilde": "~", "And": "&", "Slash": "/", "Id": "a", "Str": "'s'", "Predicate": "?1", "Action": "#1", "Assertion": "!1",
+       "NodeRename": "@r", "NodeMarker": "<1", "NodeCreation": "1>n", "Error": "$"}
+
+def span_violation(fp, sv, n):
+    kinds = [fp.tokens[k] for k in sv['witness']]
+    return dict(kind='diag-span', n=n, witness=sv['witness'], span_cex=sv,
+                detail=f"diagnostic {sv['msg']!r} has span {sv['term']} (b_i = byte offset of token i): for tokens {kinds} at offsets {sv['bounds']} that is "
+                       f"{sv['lo']}..{sv['hi']}, outside the text or inside a token that can hold multi-byte characters")
 
 def shard_job(args):
     mir_path, n, prefix, validate = args
@@ -60,7 +120,7 @@ def shard_job(args):
     out = dict(n=n, paths=0, steps=0, queries=0, solver_time=0.0, viol=[], fns=set(), models=set(), inconclusive=[], witnesses=[], forks=0)
     try:
         fp = get_fp(mir_path)
-        results, st = frontend.explore_front(fp, n, seed_decisions=[prefix])
+        results, st = frontend.explore_front(fp, n, seed_decisions=[prefix], symspans=True, on_path=span_oracle(fp))
         out['paths'] = len(results); out['steps'] = st['steps']; out['queries'] = st['queries']; out['solver_time'] = st['solver_time']
         out['fns'] = set(st['fns']); out['models'] = set(st['models']); out['forks'] = sum(r.forks for r in results)
         if not st['complete']: out['inconclusive'].append(f'n={n} prefix {prefix}: incomplete')
@@ -68,6 +128,8 @@ def shard_job(args):
         for r in results:
             for kind, detail in eval_front(fp, r):
                 out['viol'].append(dict(kind=kind, detail=detail, witness=r.witness, n=n))
+            for sv in r.span_viol:
+                if sum(1 for v in out['viol'] if 'span_cex' in v) < 3: out['viol'].append(span_violation(fp, sv, n))
             if rnd.random() < validate:
                 out['witnesses'].append(dict(witness=r.witness, walk=r.walk, diags=r.diags, status=r.status))
     except Unsupported as e: out['inconclusive'].append(f'n={n}: {e}')
@@ -99,9 +161,14 @@ def compare_front_native(fp, wit, nat):
     if shape_e(wit['walk']) != shape_n(nat['walk']): return f"tree differs: {shape_e(wit['walk'])} vs {shape_n(nat['walk'])}"
     n = len(spans)
     ed = []
+    bnd = [s[0] for s in spans] + [nat['len']]
+    env = {f'b{i}': z3.IntVal(b) for i, b in enumerate(bnd)}
+    def val(x):     # boundary index, or a serialised term over the boundary variables evaluated at the native token offsets
+        if isinstance(x, int): return bnd[x]
+        if isinstance(x[1], int): return x[1]
+        return z3.simplify(run.deser(x[1], env)).as_long()
     for sev, msg, sp in wit['diags']:
-        lo, hi = sp
-        ed.append([spans[lo][0] if lo < n else nat['len'], spans[hi - 1][1] if hi > lo else (spans[lo][0] if lo < n else nat['len'])])
+        ed.append([val(sp[0]), val(sp[1])])
     if ed != nat['diags']: return f"parser diagnostics differ: {ed} vs {nat['diags']}"
     return None
 
@@ -245,7 +312,7 @@ def main(t, sd):
     # shard: explore a first layer in the parent, hand the pending decision prefixes to workers
     tasks = []; first = []
     for n in range(N + 1):
-        results, st = frontend.explore_front(fp0, n, max_paths=60 if n >= 3 else None, bfs=True)
+        results, st = frontend.explore_front(fp0, n, max_paths=60 if n >= 3 else None, bfs=True, symspans=True, on_path=span_oracle(fp0))
         first.append((n, results, st))
         for p in st['pending']: tasks.append((mir, n, p, 0.06 if n >= 4 else 0.5))
     res = []; sres = []; smoke = []
@@ -260,6 +327,7 @@ def main(t, sd):
         forks += sum(r.forks for r in results)
         for r in results:
             for kind, detail in eval_front(fp0, r): viol.append(dict(kind=kind, detail=detail, witness=r.witness, n=n))
+            for sv in r.span_viol: viol.append(span_violation(fp0, sv, n))
             wits.append(dict(witness=r.witness, walk=r.walk, diags=r.diags, status=r.status))
     for r in res:
         paths += r['paths']; steps += r['steps']; queries += r['queries']; stime += r['solver_time']; fns |= set(r['fns']); mods |= set(r['models'])
@@ -295,6 +363,14 @@ def main(t, sd):
         if v.get('smoke'):
             o = fe_native_run(exe, ['TEXT ' + v['text'].encode().hex()])[0]
             v['native'] = o; v['replay_text'] = v['text']; v['confirmed'] = bool(o.get('panic') or o.get('bad_spans'))
+        elif 'span_cex' in v:
+            sv = v['span_cex']; kinds = [fp0.tokens[k] for k in sv['witness']]
+            texts = mb_texts(kinds, sv['bounds'], sv['lo'], sv['hi'])
+            outs = fe_native_run(exe, ['TEXT ' + x.encode().hex() for x in texts])
+            v['confirmed'] = False
+            for x, o in zip(texts, outs):
+                if o.get('panic') or o.get('bad_spans'): v['confirmed'] = True; v['native'] = o; v['replay_text'] = x; v['text'] = x; break
+            if not v['confirmed']: v['text'] = texts[0]
         elif 'text' in v:
             full = "token A=" + v['text'] + ";\nstart s;\ns: A;\n"
             o = fe_native_run(exe, ['TEXT ' + full.encode().hex()])[0]
@@ -346,7 +422,7 @@ def finish(t, sd, t0, N, NS, paths, spaths, steps, queries, stime, fns, mods, vi
                inconclusive=inconc[:40], engine_native_mismatches=mism[:20], known_findings_hit=known_hits, violations_reported=reported)
     ev = dict(property_id='C12', tier=t, seed=sd, level='model_checking', coverage=cov, wall_s=round(time.time() - t0, 2), violations=reported,
               assumptions=['PARTIAL: the logos lexer (tokenize/parse_string/parse_block_comment) is intercepted, SemanticPass::run is not executed symbolically',
-                           'token spans are [i,i+1): a span on token boundaries is on char boundaries of the text',
+                           'parser stage: token i occupies bytes [b_i, b_{i+1}) with symbolic boundaries 0 = b_0 < b_1 < .. < b_n = text length (gapless lexer); a span end point must be a boundary or lie inside a token of an ASCII-only kind (all kinds except ' + ', '.join(MB_KINDS) + ')',
                            'check_string: strings of symbolic code points constrained to the shape parse_string guarantees for a Str token',
                            'codespan Diagnostic/Label builders are modelled (severity, message, first label)'])
     os.makedirs(os.path.join(VERIF, 'evidence'), exist_ok=True)
